@@ -31,13 +31,22 @@ type Exec struct {
 type RunOpts struct {
 	KeepTrace bool // keep frames and MQ log in the result
 	OnStart   func(prefix []string)
+	// Free runs the scenario with the scheduler detached (workers and go
+	// statements run freely): used by the race pass, where the cooperative
+	// hand-offs must not hide unsynchronised accesses.
+	Free bool
 }
 
 // RunOnce executes the scenario on a fresh gateway: the prefix is replayed by
 // action name, afterwards the default (first enabled) action is taken until
 // nothing is enabled; then the end-of-run monitors are evaluated.
 func RunOnce(sc *Scenario, prefix []string, opt RunOpts) *Exec {
-	w := NewWorld(sc)
+	var w *World
+	if opt.Free {
+		w = newWorld(sc, true)
+	} else {
+		w = NewWorld(sc)
+	}
 	x := &Exec{}
 	max := sc.MaxPoints
 	if max == 0 {
